@@ -19,6 +19,49 @@ def unscale(r):
         return r
 
 
+def bezier_curve_roundtrip(ctx, tg, small, P, p, num, exp):
+    from geomdl import BSpline, NURBS, operations
+    site = "operations.degree_operations"
+    W = [1.0, 2.0, 0.5, 3.0, 1.0, 2.0, 0.5, 3.0, 1.0, 2.0]
+    for rat in (False, True):
+        t2 = tg + ["bezier_curve", "rational" if rat else "nonrational"]
+
+        def mk():
+            c = (NURBS.Curve if rat else BSpline.Curve)()
+            c.degree = p
+            if rat:
+                c.ctrlptsw = [[x * w for x in q] + [w] for q, w in zip(P, W)]
+            else:
+                c.ctrlpts = [list(q) for q in P]
+            c.knotvector = [0.0] * (p + 1) + [1.0] * (p + 1)
+            return c
+        try:
+            c = mk()
+            orig = [list(q) for q in c._control_points]
+            ref = [c.evaluate_single(t / 8.0) for t in range(9)]
+            operations.degree_operations(c, [num])
+            kv = [0.0] * (p + num + 1) + [1.0] * (p + num + 1)
+            if c.degree != p + num or not close_seq(list(c.knotvector), kv) or len(c._control_points) != p + num + 1:
+                ctx.violate(site, t2 + ["structure"], small, {"degree": c.degree, "kv": list(c.knotvector), "n": len(c._control_points)})
+                continue
+            if not rat and not close_seq([list(q) for q in c.ctrlpts], exp):
+                ctx.violate(site, t2 + ["elevated_polygon"], small, {"expected": fl(exp), "got": [list(q) for q in c.ctrlpts]})
+                continue
+            got = [c.evaluate_single(t / 8.0) for t in range(9)]
+            if not close_seq(got, ref, 1e-8):
+                ctx.violate(site, t2 + ["same_curve"], small, {"at_1/8": got[1], "expected": ref[1]})
+                continue
+            if not (close_seq(list(c._control_points[0]), orig[0]) and close_seq(list(c._control_points[-1]), orig[-1])):
+                ctx.violate(site, t2 + ["end_points"], small, {"first": list(c._control_points[0]), "last": list(c._control_points[-1])})
+                continue
+            for _ in range(num):
+                operations.degree_operations(c, [-1])
+            if c.degree != p or not close_seq([list(q) for q in c._control_points], orig, 1e-8):
+                ctx.violate(site, t2 + ["reduce_back"], small, {"degree": c.degree, "got": [list(q) for q in c._control_points][:3], "expected": orig[:3]})
+        except Exception as e:
+            ctx.violate(site, t2 + ["raises"], small, {"exception": repr(e)[:200]})
+
+
 def check_case(ctx, cs):
     from geomdl import helpers, operations
     from geomdl.exceptions import GeomdlException
@@ -42,6 +85,9 @@ def check_case(ctx, cs):
             ok, r = _try(ctx, "helpers.degree_elevation", tg + ["unit=2^-27"], small, lambda: helpers.degree_elevation(p, [[x * SMALL for x in pt] for pt in P], num=num))
             if ok and not close_seq(unscale(r), exp):
                 ctx.violate("helpers.degree_elevation", tg + ["unit=2^-27"], small, {"expected": fl(exp), "got_rescaled": unscale(r)})
+            # the same polygon as a Bezier CURVE object through the curve-level wrapper: elevated polygon, degree and knot vector;
+            # reduction (one degree at a time) returns the original; the rational variant carries a weight per point
+            bezier_curve_roundtrip(ctx, tg, small, P, p, num, exp)
             # polygon of rows of points (each row: the point twice)
             rows = [[list(x), list(x)] for x in P]
             ok, r = _try(ctx, "helpers.degree_elevation", tg + ["rows_of_points"], small, lambda: helpers.degree_elevation(p, rows, num=num))
